@@ -438,6 +438,18 @@ func genWideRepeat() *rapid.Generator[model.Forest] {
 			}
 			r.Kids = append(r.Kids, &model.T{Name: "c" + strconv.Itoa(k), Kids: []*model.T{{Name: "again" + strconv.Itoa(j)}}})
 		}
+		if rapid.IntRange(0, 2).Draw(t, "twin") == 0 {
+			// two equally named wide parents at the same depth of one tree (a/wide, b/wide) with the same child names
+			var clone func(n *model.T) *model.T
+			clone = func(n *model.T) *model.T {
+				c := &model.T{Name: n.Name}
+				for _, k := range n.Kids {
+					c.Kids = append(c.Kids, clone(k))
+				}
+				return c
+			}
+			return model.Forest{{Name: "top", Kids: []*model.T{{Name: "a", Kids: []*model.T{r}}, {Name: "b", Kids: []*model.T{clone(r)}}}}}
+		}
 		f := model.Forest{r}
 		if rapid.Bool().Draw(t, "below") {
 			// the wide parent one level down
